@@ -12,6 +12,7 @@ reference build (harness, every run) and by the mirror theorem of C02.
 -/
 import Preflate.Gen.Consts
 import Preflate.Ref.Consts
+import Preflate.Props.C02
 namespace Preflate
 
 /-- the format-relevant constants (estimator-only tables and scanner thresholds are NOT here:
